@@ -299,6 +299,16 @@ func RunC14(c *core.Ctx) {
 		b = append(append(b, 0, byte(n)), y...)
 		b = append(append(b, 0, byte(len(r))), r...)
 		good = append(good, b)
+		// minimal-length coordinates: leading zero bytes stripped (the length-prefixed format permits it)
+		for _, strip := range [][2]int{{1, 0}, {0, 1}, {1, 1}, {2, 0}} {
+			xs, ys := append([]byte{}, x...), append([]byte{}, y...)
+			xs[1], ys[1] = 0, 0
+			xs, ys = xs[strip[0]:], ys[strip[1]:]
+			s := append([]byte{0, byte(len(xs))}, xs...)
+			s = append(append(s, 0, byte(len(ys))), ys...)
+			s = append(append(s, 0, byte(len(r))), r...)
+			good = append(good, s)
+		}
 	}
 	for _, g := range good {
 		c.Do("kex.ecdhparam", core.Params{"b": hex.EncodeToString(g)}, "ecdhparam-valid")
